@@ -269,7 +269,7 @@ def obligations(tier, seed):
                         "opts": {"budget_s": 600, "ctx": {"loop_bound": 1000}},
                         "witness": bs == 7 and n in (2, 3),
                     })
-                if tier != "quick":
+                if tier != "quick" and n <= 4:
                     for bs in (2, 3, 5, 8, 13, 21, 34):
                         out.append({
                             "name": f"parser-short-read[{framing},{kind},n={n},buffer_size={bs}]",
